@@ -7,6 +7,7 @@ import (
 	"strings"
 	"sync"
 	"sync/atomic"
+	"time"
 
 	otter "github.com/maypok86/otter/v2"
 )
@@ -293,6 +294,88 @@ func runHmap(seed uint64, scale int, out string, _ string) *summary {
 	}
 	runtime.GOMAXPROCS(old)
 
+	// ---- (c) a Compute that is INSIDE its function (it holds its bucket) while another goroutine makes the
+	// table grow or shrink: the copy must wait for that bucket, so that the update lands in the table that
+	// survives.  Large tables (>= 128 root buckets, copied in parallel) and small ones (copied serially).
+	parked := 10 * scale
+	for pc := 0; pc < parked; pc++ {
+		big := pc%2 == 0
+		n0 := 100
+		if big {
+			n0 = 560 + r.intn(200)
+		}
+		m := otter.VerifNewMap(0)
+		for k := 0; k < n0; k++ {
+			m.Compute(2_000_000+k, func(int, bool) (int, int) { return k, 1 })
+		}
+		victim := 3_000_000 + pc
+		mode := pc % 3 // 0 insert, 1 update, 2 delete
+		if mode != 0 {
+			m.Compute(victim, func(int, bool) (int, int) { return 7, 1 })
+		}
+		tl0 := m.TableLen()
+		inside := make(chan struct{})
+		release := make(chan struct{})
+		done := make(chan struct{})
+		go func() {
+			defer close(done)
+			m.Compute(victim, func(int, bool) (int, int) {
+				close(inside)
+				<-release
+				switch mode {
+				case 2:
+					return 0, 2
+				default:
+					return 4242, 1
+				}
+			})
+		}()
+		<-inside
+		grown := make(chan struct{})
+		shrink := pc%4 == 3
+		go func() {
+			defer close(grown)
+			if shrink {
+				for k := 0; k < n0; k++ {
+					m.Compute(2_000_000+k, func(int, bool) (int, int) { return 0, 2 })
+				}
+				return
+			}
+			for k := 0; m.TableLen() == tl0 && k < 6*n0+2000; k++ {
+				m.Compute(4_000_000+k, func(int, bool) (int, int) { return k, 1 })
+			}
+		}()
+		select {
+		case <-grown:
+		case <-time.After(40 * time.Millisecond):
+		}
+		close(release)
+		<-done
+		select {
+		case <-grown:
+		case <-time.After(20 * time.Second):
+			sum.fail("C15", "resize-stuck", "a resize did not finish after the Compute that held one of its buckets returned", fmt.Sprintf("parked case %d", pc))
+			continue
+		}
+		sum.Ops += n0
+		v, ok := m.Get(victim)
+		wantOK := mode != 2
+		inRange := 0
+		cnt := 0
+		m.Range(func(k, _ int) bool {
+			cnt++
+			if k == victim {
+				inRange++
+			}
+			return true
+		})
+		if ok != wantOK || (ok && v != 4242) || (wantOK && inRange != 1) || (!wantOK && inRange != 0) || m.Size() != cnt {
+			sum.fail("C15", "lost-across-resize", "an update made by a Compute that overlapped a resize is missing from (or a deleted key is back in) the surviving table",
+				fmt.Sprintf("parked case %d big=%v mode=%d (0 insert,1 update,2 delete) shrink=%v: Get=(%d,%v) in Range %d times, Size=%d Range count=%d table %d->%d",
+					pc, big, mode, shrink, v, ok, inRange, m.Size(), cnt, tl0, m.TableLen()))
+		}
+		sum.Dist[fmt.Sprintf("parked_compute_across_resize_big_%v", big)]++
+	}
 	// ---- (b) concurrent oracles
 	rounds := 12 * scale
 	for rd := 0; rd < rounds; rd++ {
